@@ -85,6 +85,7 @@ pub fn data_change() -> impl Strategy<Value = DataChange> {
         3 => (0u8..4).prop_map(DataChange::Name),
         2 => (0u8..4).prop_map(DataChange::Description),
         2 => (0u8..6).prop_map(DataChange::Relays),
+        1 => (0u8..6).prop_map(DataChange::RelayShapes),
         2 => (0u8..4).prop_map(DataChange::RotateId),
         1 => (0u8..4).prop_map(DataChange::Image),
         1 => Just(DataChange::ClearImage),
